@@ -139,6 +139,13 @@ def run(ctx):
     fails = ctx.prop('prop:grammar', cases, p_field)
     bf, bt = big_field()
     fails += ctx.prop('prop:grammar:large', [(bf, bt, bt), (bf[:3000], ',\n '.join(bt.split(', ')[:3000]), ', '.join(bt.split(', ')[:3000]))], p_field)
+    # one group of thousands of alternatives; one relationship with hundreds of architectures; names and versions of
+    # hundreds of characters
+    wide = [[{'name': 'alt%d' % i, 'ver': ('>=', '1.%d' % i) if i % 3 == 0 else None, 'archs': []} for i in range(3000)]]
+    wide += [[{'name': 'many-archs', 'ver': ('<<', '2:3.0~rc1-1'), 'archs': ['!arch%d' % i for i in range(400)]}],
+             [{'name': 'lib' + 'x' * 600 + '-dev', 'ver': ('=', '1.' + '9' * 700 + '-1'), 'archs': []}, {'name': 'z', 'ver': None, 'archs': ['amd64']}]]
+    wt = G.render(rng, wide, canonical=True)
+    fails += ctx.prop('prop:grammar:wide', [(wide, wt, wt), (wide, wt.replace(' | ', '\n |\t').replace(', ', ' ,\n '), wt)], p_field)
     fails += ctx.prop('prop:bad-clauses', G.BAD_CLAUSES + ['%s (%s)' % (rng.choice(G.NAMES), rng.choice(G.VERS)) for _ in range(200)]
                       + ['%s (%s)' % (rng.choice(G.NAMES), rng.choice(G.OPS)) for _ in range(200)]
                       + ['%s (%s %s %s %s)' % (rng.choice(G.NAMES), rng.choice(G.OPS), rng.choice(G.VERS), rng.choice(G.OPS), rng.choice(G.VERS)) for _ in range(200)],
